@@ -183,6 +183,7 @@ RULE = (
     "distance LP. Tolerances are the ones in the property statement (2e-2 / 1% default, 2e-3 / 1e-6 high accuracy). Non-trivial = a "
     "bound active at the oracle optimum, or a target below the baseline, or an under-determined system."
     " A sixth of the under-determined systems have two sources with proportional captures; targets also as nested lists; C / Fortran / strided memory layouts."
+    " Every case also fits a whole-number problem (int64 targets, K and baseline) and the same numbers as floats: equal intensities. 'dark' rows equal the baseline exactly. With batch_size > 1 the accuracy term includes sqrt(relative gap x objective of the whole call)."
 )
 
 PROP = Prop(
